@@ -18,6 +18,7 @@ CONSTANTS
   AsyncKinds = {}
   MaxNet = 0
   W = {}
+  MayTimeout = {a, b, c}
   Gen = FALSE
 SPECIFICATION Spec
 SYMMETRY Symm
